@@ -30,6 +30,25 @@ theorem accept_equal_inf (exp : Ext F → Ext F) (T u : Ext F) :
     accepts exp .pinf .pinf T u = true ∧ drawsUsed (.pinf : Ext F) .pinf = 0 :=
   accept_better_or_equal_ext exp .pinf .pinf T u (by show Ext.leb _ _ = true; rfl)
 
+/-- Infinite objective values (`+∞` = infeasible) on the IEEE-like carrier, with `exp(−∞) = 0`:
+an infeasible candidate never replaces a feasible current solution (`p = exp(−∞) = 0`, no draw
+`u ≥ 0` is below it), and a feasible candidate always replaces an infeasible current one. -/
+theorem accept_inf_candidate (f : F → F) (atPinf : Ext F) (x t y : F) (ht : 0 < t) (hy : 0 ≤ y) :
+    accepts (Ext.lift f atPinf (.fin 0)) (.fin x) .pinf (.fin t) (.fin y) = false ∧
+    accepts (Ext.lift f atPinf (.fin 0)) .pinf (.fin x) (.fin t) (.fin y) = true := by
+  have h1 : ((Ext.fin x : Ext F) - .pinf) / .fin t = .ninf := by
+    show (if 0 ≤ t then Ext.ninf else Ext.pinf) = _
+    simp [le_of_lt ht]
+  constructor
+  · simp only [accepts, prob, h1, Ext.lift]
+    have : ¬ ((Ext.pinf : Ext F) ≤ .fin x) := by show ¬ (Ext.leb _ _ = true); simp [Ext.leb]
+    have h2 : ¬ ((Ext.fin y : Ext F) < .fin 0) := by rw [Ext.fin_lt_fin]; exact not_lt.mpr hy
+    simp [this, h2]
+  · have : ((Ext.fin x : Ext F) ≤ .pinf) := by show (Ext.leb _ _ = true); simp [Ext.leb]
+    simp [accepts, this]
+
+example : (0 : Rat) < 1 / 1000 ∧ (0 : Rat) ≤ 0 := by norm_num
+
 /-- A worse candidate is accepted exactly when the draw falls below `exp(−(f(cand) − f(cur)) / T)`. -/
 theorem accept_worse_iff (exp : F → F) (cur cand T u : F) (h : cur < cand) :
     accepts exp cur cand T u = true ↔ u < exp (-(cand - cur) / T) := by
